@@ -43,7 +43,7 @@ func c20(c *Ctx) {
 	r := c.R
 	w := newWriterA(c)
 	pure := c.pureSet("isControl", "isData")
-	r.Rule("C20.owners", "BufferPool.Get on Conn.writePool is called only in beginMessage and Put only in endMessage (or private helpers called only from them)")
+	r.Rule("C20.owners", "BufferPool.Get (on any value of the BufferPool type: Conn.writePool, Upgrader/Dialer.WriteBufferPool, copies) is called only in beginMessage and Put only in endMessage (or private helpers called only from them)")
 	r.Rule("C20.get-after-validate", "in beginMessage the pool is consulted only after the message type and the sticky write error were checked, and only when Conn.writeBuf is nil")
 	r.Rule("C20.put-once", "in endMessage Put is guarded by the first-call test (w.err == nil) and writePool != nil, passes the current Conn.writeBuf, and the field is set to nil afterwards; w.err is set on that path")
 	r.Rule("C20.end-nonnil", "every argument given to endMessage is non-nil by construction or by a path literal (otherwise the writer would stay alive after its buffer was released)")
@@ -66,12 +66,9 @@ func c20(c *Ctx) {
 				if m != "Get" && m != "Put" {
 					continue
 				}
-				u, isU := ci.Common().Value.(*ssa.UnOp)
-				if !isU {
-					continue
-				}
-				fa, isFA := u.X.(*ssa.FieldAddr)
-				if !isFA || fieldOf(fa) != w.writePool {
+				// any value of the BufferPool interface type: Conn.writePool, but also Upgrader.WriteBufferPool
+				// or Dialer.WriteBufferPool used directly, a local copy, a parameter
+				if nt, isN := ci.Common().Value.Type().(*types.Named); !isN || nt.Obj().Pkg() != c.P.Pkg.Types || nt.Obj().Name() != "BufferPool" {
 					continue
 				}
 				want := w.begin
@@ -229,37 +226,7 @@ func c20(c *Ctx) {
 		r.Floor("C20.end-nonnil", 1)
 	}
 
-	// ---- all-exits
-	{
-		ok, why := true, "error returns and final-frame returns pass endMessage; successful non-final flushes do not"
-		n := 0
-		c.explore("C20.all-exits", w.flush, core.Opts{Pure: pure}, func(p *core.Path) {
-			if p.End != core.EndReturn || len(p.Results) != 1 {
-				return
-			}
-			n++
-			ended := false
-			for i := range p.Events {
-				if callsStatic(&p.Events[i], w.end) {
-					ended = true
-				}
-			}
-			final := hasLit(p, len(p.Lits), true, func(t *core.Term) bool { return t.Kind == core.KParam && t.Ref == w.flush.Params[1] })
-			notFinal := hasLit(p, len(p.Lits), false, func(t *core.Term) bool { return t.Kind == core.KParam && t.Ref == w.flush.Params[1] })
-			res := p.Results[0]
-			switch {
-			case !res.IsNil() && !ended:
-				ok, why = false, "flushFrame returns an error at "+c.P.Pos(p.Ret.Pos())+" without ending the message (the pooled buffer stays with a dead writer)"
-			case res.IsNil() && final && !ended:
-				ok, why = false, "flushFrame returns after the final frame without ending the message"
-			case res.IsNil() && notFinal && ended:
-				ok, why = false, "flushFrame ends the message after a non-final frame"
-			case res.IsNil() && !final && !notFinal && !ended:
-				ok, why = false, "flushFrame success path does not depend on 'final'"
-			}
-		})
-		r.Check("C20.all-exits", shortFn(w.flush), "endMessage-on-every-message-end", w.flush.Pos(), ok && n > 5, why)
-	}
+	w.allExits("C20.all-exits")
 
 	w.noUseAfter()
 	w.heldOnlyWithoutPool()
@@ -296,4 +263,41 @@ func (c *Ctx) privateHelperOf(fn, owner *ssa.Function) bool {
 		}
 	}
 	return callers > 0
+}
+
+// allExits: every path of flushFrame that returns an error, or returns after
+// the final frame, has passed endMessage (the writer is detached from the
+// connection and whatever it buffered can never be flushed later); a
+// successful non-final flush has not.
+func (w *writerA) allExits(rule string) {
+	c, r := w.c, w.c.R
+	pure := c.pureSet("isControl", "isData")
+	ok, why := true, "error returns and final-frame returns pass endMessage; successful non-final flushes do not"
+	n := 0
+	c.explore(rule, w.flush, core.Opts{Pure: pure}, func(p *core.Path) {
+		if p.End != core.EndReturn || len(p.Results) != 1 {
+			return
+		}
+		n++
+		ended := false
+		for i := range p.Events {
+			if callsStatic(&p.Events[i], w.end) {
+				ended = true
+			}
+		}
+		final := hasLit(p, len(p.Lits), true, func(t *core.Term) bool { return t.Kind == core.KParam && t.Ref == w.flush.Params[1] })
+		notFinal := hasLit(p, len(p.Lits), false, func(t *core.Term) bool { return t.Kind == core.KParam && t.Ref == w.flush.Params[1] })
+		res := p.Results[0]
+		switch {
+		case !res.IsNil() && !ended:
+			ok, why = false, "flushFrame returns an error at "+c.P.Pos(p.Ret.Pos())+" without ending the message (the pooled buffer stays with a dead writer)"
+		case res.IsNil() && final && !ended:
+			ok, why = false, "flushFrame returns after the final frame without ending the message"
+		case res.IsNil() && notFinal && ended:
+			ok, why = false, "flushFrame ends the message after a non-final frame"
+		case res.IsNil() && !final && !notFinal && !ended:
+			ok, why = false, "flushFrame success path does not depend on 'final'"
+		}
+	})
+	r.Check(rule, shortFn(w.flush), "endMessage-on-every-message-end", w.flush.Pos(), ok && n > 5, why)
 }
